@@ -5,7 +5,7 @@ import CotengraVerif.Generated.FactsC16
 # C16 — closed obligations over the source-derived fact tables
 
 `Generated/FactsC16.lean` is rewritten from the AST of `cotengra/pathfinders/path_basic.py`,
-`cotengra/reusable.py` and `cotengra/presets.py` by `harness/c16.py: gen_facts` on every run.
+`cotengra/reusable.py`, `cotengra/presets.py` and `cotengra/hyperoptimizers/hyper.py` by `harness/c16.py: gen_facts` on every run.
 The obligations are what the model and the invariant of `C16.per_thread_isolation` take from the
 source: which shared attributes the query path writes, and under which key.
 -/
@@ -29,5 +29,30 @@ theorem shared_stores_keyed_by_thread :
     (∀ s ∈ reusableStores, s ∈ ["self._cache[h]", "self._suboptimizers[<ident>]"]) ∧
       lastOptReadsIdent = true ∧
       (∀ p ∈ autoStores, p.1 = "_hyperoptimizers_by_thread" ∧ p.2 ≠ "") := by decide
+
+/-- **futures_fresh_per_search** — the premise `freshList = true` of `pool_isolation`
+    (Props/C16Pool.lean), read off hyper.py: `_gen_results_parallel` binds `self._futures` to a
+    fresh empty container before it uses it, no class-level mutable container of `HyperOptimizer`
+    (or a subclass) is mutated in place through `self`, and `_futures` is reached through `self`
+    only — so the list of in-flight trials is one object per search. -/
+theorem futures_fresh_per_search :
+    futuresFreshPerSearch = true ∧ hyperClassMutables = [] ∧ futuresForeignUses = [] := by decide
+
+/-- **iface_key_is_full_tuple** — the premise `KeySeparates` of `iface_path_isolation`
+    (Props/C16Iface.lean), read off interface.py: the key of `_PATH_CACHE` is the tuple returned by
+    `hash_contraction`, which contains `inputs` and `output` as they are, the items of `size_dict`
+    and `optimize`, and is not passed through `hash`; `dict` lookups compare full keys. -/
+theorem iface_key_is_full_tuple :
+    ifaceKeyReturnsTuple = true ∧ ifaceKeyCallsHash = false ∧ ifaceCacheKeyedByIt = true ∧
+      (∀ n ∈ ["inputs", "output", "size_dict", "optimize"], n ∈ ifaceKeyNames) ∧
+      (∀ n ∈ ["inputs", "output"], n ∈ ifaceKeyBare) := by decide
+
+/-- **suboptimizer_fresh_per_call** — the premise `policy = fresh` of
+    `fresh_suboptimizer_isolation` (Props/C16Shared.lean), read off hyper.py / path_basic.py /
+    reusable.py: every `_get_suboptimizer` of a `ReusableOptimizer` subclass is a single
+    `return <Class>(...)`, and `_run_optimizer` calls it exactly once. -/
+theorem suboptimizer_fresh_per_call :
+    suboptFreshPerCall ≠ [] ∧ (∀ p ∈ suboptFreshPerCall, p.2 = true) ∧ suboptCallsPerRun = 1 := by
+  decide
 
 end Cotengra.C16
